@@ -79,6 +79,15 @@ CHECKS = {
             'C17_ro_concat. Correspondence on paragraphs of every bracket / white-space shape and on roStorySend bodies; the white-space '
             'table is compared with str.isspace over all 0x110000 code points on every run.',
             'section 5 C17', 'Coq theorems on the script/body model + extracted-model differential run + exhaustive table comparison'),
+    'C18': ('proof', 'Theorems C18_listing (every key with the suffix across any number of pages), C18_empty_page_hides_nothing, C18_reader '
+            '(reader metadata and restore) proved in Coq. PARTIAL: the interchangeability of file / str / bytes / S3 object is '
+            'translation validation by differential runs only (three encodings, fake S3 client and resource): file I/O, byte '
+            'decoding and boto3 are not modelled.',
+            'section 5 C18', 'Coq theorems on the listing / reader model + differential runs over sources and encodings'),
+    'C19': ('proof', 'Theorems C19_detect_line, C19_detect_compositional (one bad file never hides the others, by construction of the output '
+            'as a concatenation per file - for any list), C19_detect_status, C19_merge_output on the command functions. PARTIAL: '
+            'argparse, the file system and the exit status are glue covered by running mosromgr.cli.main in a subprocess.',
+            'section 5 C19', 'Coq theorems on the command-function model + differential CLI runs in a subprocess'),
 }
 
 
